@@ -443,8 +443,12 @@ def replay(payload):
         body = R.serialise(ordered, c["little"])
         sizes = c.get("sizes") or [len(body)]
         resp = R.encode_response(R.render_dmr(spec), ordered, c["little"], sizes)
-        ds, err = unpack_impl(fns, resp)
+        with OrderSpy() as spy:
+            ds, err = unpack_impl(fns, resp)
         judge_response(ctx, fns, spec, arrays, ds, err, c["little"], sizes, "replay")
+        doc_order = [R.fqn(p, v["name"]) if p else v["name"] for p, v in R.walk_vars(spec)]
+        if ds is not None and spy.seen != doc_order:
+            ctx.oracle_fail("decode order differs from document order", c, spy.seen, doc_order)
     else:
         idx = idx_from_json(c["index"])
         exp = arrays[c["var"]][idx]
